@@ -59,3 +59,51 @@ Example C05_length_determinant_vectors :
   enc_len_short 5 = to_bits 8 5 /\ enc_len_short 300 = to_bits 8 129 ++ to_bits 8 44.
 Proof. split; vm_compute; reflexivity. Qed.
 Print Assumptions C05_length_determinant_vectors.
+
+(** ------------------------------------------------------------------
+    The whole-type statement.  [Per/X691.v] is a specification model written from the structure of X.691 and NOT
+    from uper.py: [x691_fields] produces the abstract field list clause by clause (constrained whole numbers 10.5,
+    normally small numbers 10.6, semi-constrained 10.7, unconstrained 10.8, counted items with the 16K
+    fragmentation procedure 10.9, open types 10.2; BOOLEAN 12 ... restricted strings 30 incl. the re-indexing rule
+    30.5.4), [serialise] lays the fields out without alignment.  On the boolean scope [x691_scope] - which excludes
+    exactly the regions where the library deviates (each documented by a [.._deviates] example in Per/X691Refine.v)
+    and the constructs the implementation model maps to EUnmodelled/EForeign - the implementation model computes
+    exactly the specification, errors included. *)
+From Asn1V Require Import Per.X691 Per.X691Refine Per.X691Ex.
+
+Theorem C05_uper_refines_x691 :
+  forall numeric e fuel t v,
+    x691_scope numeric e fuel t v = true ->
+    enc numeric e fuel t v = x691_encode numeric e fuel t v.
+Proof. exact uper_refines_x691. Qed.
+Print Assumptions C05_uper_refines_x691.
+
+Theorem C05_uper_encode_refines_x691 :
+  forall numeric e fuel t v,
+    x691_scope numeric e fuel t v = true ->
+    x691_encode numeric e fuel t v <> Ok [] ->
+    uper_encode numeric fuel e t v = x691_encode_octets numeric e fuel t v.
+Proof. exact uper_encode_refines_x691. Qed.
+Print Assumptions C05_uper_encode_refines_x691.
+
+(** the empty outermost encoding (known finding per-empty-outermost-encoding): the library emits no octet where
+    X.691 10.1.3 prescribes one zero octet *)
+Theorem C05_uper_encode_empty_x691 :
+  forall numeric e fuel t v,
+    x691_scope numeric e fuel t v = true ->
+    x691_encode numeric e fuel t v = Ok [] ->
+    uper_encode numeric fuel e t v = Ok [] /\ x691_encode_octets numeric e fuel t v = Ok [0].
+Proof. exact uper_encode_empty_x691. Qed.
+Print Assumptions C05_uper_encode_empty_x691.
+
+(** Non-vacuity: the nested extensible example of Props/C01.v and the four-node extension example are in scope, and
+    the specification model reproduces the unaligned examples of X.691 Annex A.1.3, A.2.3, A.3.3 octet for octet. *)
+Example C05_scope_inhabited : ltac:(let T := type of (conj ex_in_scope top2_in_scope) in exact T).
+Proof. exact (conj ex_in_scope top2_in_scope). Qed.
+Print Assumptions C05_scope_inhabited.
+Example C05_annex_a : ltac:(let T := type of (conj annex_a1 (conj annex_a2 annex_a3)) in exact T).
+Proof. exact (conj annex_a1 (conj annex_a2 annex_a3)). Qed.
+Print Assumptions C05_annex_a.
+
+(* OPEN: the same refinement for aligned PER (the field layer of X691.v was written so that an aligned serialiser
+   can be added without touching x691_fields). *)
